@@ -289,12 +289,15 @@ func (g *gen) declEnum(fi int, parent *gMsg) *gEnum {
 	if g.chance(1, 3) {
 		infoKeys = []string{"colour", "rank"}[:1+g.h.Rng.IntN(2)]
 	}
+	prefixy, usedNames := g.prefixyMode(), map[string]bool{} // enumnames.go (seeded C15-m7)
 	for i := 0; i < nv; i++ {
 		vn := first
 		if i > 0 {
 			vn = fmt.Sprintf("%sV%d", prefix, i)
 			if g.adv && g.chance(1, 8) {
 				vn = fmt.Sprintf("OTHER%d_V%d", g.nameN, i) // not carrying the prefix
+			} else if prefixy {
+				vn = g.prefixyValueName(prefix, i, usedNames)
 			}
 		}
 		num := int32(i)
